@@ -146,6 +146,8 @@ def _run(ctx, w):
                             if isinstance(v, int):
                                 is_primary = names.get(v) == "Primary"
                     want_primary = p[1] == act
+                    if not (is_primary is not None and is_primary == want_primary) and _accessor_semantics(w, S, R, prim_acc, act):
+                        is_primary = want_primary       # the test has a shape the matcher does not know (matches!, a helper): decided by evaluation
                     ctx.check(is_primary is not None and is_primary == want_primary, "P3", "%s:%s" % (prim_acc, p[1]),
                               "%s hands out `%s` when the active type %s Primary: text() would read the wrong screen" % (prim_acc, p[1], "is" if is_primary else "is not"), loc=w.stmt_loc(prim_acc, (bl, i)),
                               sample={"accessor": prim_acc, "returns": p[1], "when_active_is_primary": is_primary})
@@ -239,6 +241,30 @@ def _run(ctx, w):
     # "1049 saves the cursor on entry and restores it on exit ... puts the cursor back on
     # the same character": the save/restore pairing and per-screen context rules of C17
     c17.run(ctx, w, embedded=True)
+
+
+def _accessor_semantics(w, S, R, acc, act):
+    """The role accessor evaluated for both values of the showing-screen flag with the two buffer fields as distinct symbols: it returns
+    the active field iff the flag is Primary, the parked one otherwise."""
+    import symeval as SE
+    tfield = [f for f in w.facts.struct_fields(S.term_ty) if f["name"] == R["active_buffer_type"]][0]
+    tadt = tfield["ty"].get("adt")
+    try:
+        variants = w.facts.enum_variants(tadt)
+        if sorted(variants) != ["Alternate", "Primary"]:
+            return False
+        for var in variants:
+            st = {f["name"]: ("sym", "F_" + f["name"]) for f in w.facts.struct_fields(S.term_ty)}
+            st[R["active_buffer_type"]] = ("v", "%s::%s" % (tadt, var))
+            r = SE.Interp(w.facts).call_fn(acc, [("obj", S.term_ty, st)])
+            while isinstance(r, tuple) and r and r[0] == "ref":
+                r = r[-1]
+            parked = [b_ for b_ in S.buffer_fields if b_ != act][0]
+            if r != ("sym", "F_" + (act if var == "Primary" else parked)):
+                return False
+        return True
+    except Exception:
+        return False
 
 
 def run(ctx, w):
